@@ -382,6 +382,7 @@ pub fn gen_tsp(g: &mut Gen, penalty: bool, min_dim: usize, max_dim: usize, extre
     let dim = min_dim + g.below(max_dim - min_dim + 1);
     let mut dist = vec![0.0; dim * dim];
     let scale_mode = g.below(4);
+    let asym = g.chance(0.3);
     for a in 0..dim {
         for b in (a + 1)..dim {
             let mut d = match scale_mode {
@@ -394,7 +395,8 @@ pub fn gen_tsp(g: &mut Gen, penalty: bool, min_dim: usize, max_dim: usize, extre
                 d *= 10f64.powf(g.f64_in(-6.0, 6.0));
             }
             dist[a * dim + b] = d;
-            dist[b * dim + a] = d;
+            // some instances are asymmetric (a legal travelling-salesperson problem)
+            dist[b * dim + a] = if asym && g.chance(0.4) { d * g.f64_in(0.3, 3.0) } else { d };
         }
     }
     TspSpec { dim, dist, penalty: if penalty { Some(g.u64()) } else { None }, name: format!("tsp{}", g.below(1000)) }
